@@ -112,6 +112,10 @@ func init() {
 				}
 				calls := renderCalls(rec)
 				st.add("action_calls_compared", int64(len(calls)))
+				if res.Unstable != "" {
+					st.violation("C03", key+" unstable", pre+"an attribute changed after it was handed to an action: "+res.Unstable, cs)
+					return
+				}
 				if strings.Join(calls, " ") != strings.Join(wantCalls, " ") {
 					st.violation("C03", key, fmt.Sprintf("%saction calls %v, post-order evaluation gives %v", pre, calls, wantCalls), cs)
 					return
@@ -188,5 +192,17 @@ func init() {
 			}
 		}
 		walk(0)
+		for _, sent := range c.CoverSentences() {
+			if len(sent) <= n || st.enough() {
+				continue
+			}
+			st.add("cover_sentences", 1)
+			seq = sent
+			e = c.NewEarley()
+			for _, t := range sent {
+				e.Extend(t)
+			}
+			check()
+		}
 	}
 }
